@@ -63,6 +63,9 @@ def _piece(draw, framing):
         fr = refframe.build(framing, UID, pdu)
         return fr[:draw(st.integers(1, len(fr) - 1))]
     if kind == 'foreign':
+        if draw(st.booleans()):
+            # a longer frame than the valid traffic that follows (sizes remembered from it must not be applied to later frames)
+            pdu = specpdu.encode('req:16', {'address': 3, 'registers': draw(st.lists(st.integers(0, 0xFFFF), min_size=1, max_size=8))})
         return refframe.build(framing, draw(st.sampled_from([1, 2, 0x12, 0x3A, 200])), pdu)
     if kind == 'huge-header':
         # start of a frame that announces a long body which never comes
